@@ -162,6 +162,17 @@ func isValidBits(x int) bool {
 }
 
 func bitsFromASCII(p []byte) (WindowBits, bool) {
+	// Valid values are 8..15, that is, at most two decimal digits. Do not
+	// pass anything else to IntFromASCII(): it takes bytes 0x3A-0x3F as
+	// digits and wraps around on overflow.
+	if len(p) > 2 {
+		return 0, false
+	}
+	for _, c := range p {
+		if c < '0' || c > '9' {
+			return 0, false
+		}
+	}
 	n, ok := httphead.IntFromASCII(p)
 	if !ok || !isValidBits(n) {
 		return 0, false
